@@ -117,9 +117,23 @@ def tokens_of(text):
 
 # ----------------------------------------------------------------------------- implementation side
 
-def impl_load(text, dcfg=None, icfg=None, sim=None):
+def impl_load(text, dcfg=None, icfg=None, sim=None, other_isa_first=False):
     """load_program on a (fresh) simulation; returns (sim, error record or None)"""
     from architecture_simulator.simulation.riscv_simulation import RiscvSimulation
+    if other_isa_first:
+        # the OTHER assembler sees the same lines first, in this process (state shared between the two parsers
+        # must not leak); its own verdicts are irrelevant here
+        from architecture_simulator.simulation.toy_simulation import ToySimulation
+        seen = []
+        for ln in text.splitlines():
+            t = ln.strip()
+            if t and t not in seen:
+                seen.append(t)
+        for t in seen[:10]:
+            try:
+                ToySimulation().load_program(t)
+            except Exception:
+                pass
     if sim is None:
         sim = RiscvSimulation(data_cache=cache_options(dcfg or []), instruction_cache=cache_options(icfg or []))
     try:
@@ -172,7 +186,44 @@ class AbsProg:
         self.order = "plain"
 
 
+def gen_far(rng):
+    """directed family: label-form jal (and la/li groups in between) across MORE than 4 KiB of instructions, in both
+    directions; conditional branches stay local (a B-type displacement beyond +-4 KiB is not encodable and is
+    outside the claim)"""
+    ap = AbsProg()
+    reg = lambda: rng.randrange(32)
+    def filler(k):
+        out = []
+        for _ in range(k):
+            r = rng.random()
+            if r < 0.7:
+                out.append(("ins", "add", {"rd": reg(), "rs1": reg(), "rs2": reg()}, None))
+            elif r < 0.85:
+                out.append(("ins", "nop", {}, None))
+            else:
+                out.append(("ins", "li", {"rd": reg(), "imm": rng.choice([5, 2047, 2048, -2049, 0x12345, -1])}, None))
+        return out
+    pre = filler(rng.randrange(0, 4))
+    mid = filler(rng.choice([1020, 1023, 1024, 1025, 1100, 1300]))
+    post = filler(rng.randrange(0, 4))
+    fwd = {"rd": reg(), "label": "far"}
+    bwd = {"rd": reg(), "label": "near"}
+    if rng.random() < 0.3:
+        fwd["offset"] = 4 * rng.randrange(0, 3)
+    if rng.random() < 0.3:
+        bwd["offset"] = 4 * rng.randrange(0, 3)
+    ap.items = ([("label", "near")] + pre + [("ins", "jal", fwd, "jf" if rng.random() < 0.3 else None)] + mid
+                + [("ins", "beq", {"rs1": reg(), "rs2": reg(), "label": "far"}, None)]
+                + ([("label", "far")] if rng.random() < 0.5 else []) )
+    inline_far = not (ap.items and ap.items[-1] == ("label", "far"))
+    first_post = ("ins", "add", {"rd": reg(), "rs1": reg(), "rs2": reg()}, "far" if inline_far else None)
+    ap.items += [first_post] + post + [("ins", "jal", bwd, None), ("ins", "bne", {"rs1": reg(), "rs2": reg(), "label": "far"}, None)]
+    return ap
+
+
 def gen_abs(rng, allow_pseudo=True, n_max=14):
+    if n_max == "far":
+        return gen_far(rng)
     ap = AbsProg()
     kinds = ["byte", "half", "word", "string", "zero"]
     names = ["a", "buf", "msg", "tab", "v1", "zz", "cnt"]
